@@ -119,6 +119,11 @@ func (c *Authority) VerifyQuorumCert(qc hotstuff.QuorumCert) error {
 		if qc.View() != hotstuff.GetGenesis().View() {
 			return fmt.Errorf("genesis quorum certificate has view %d", qc.View())
 		}
+		// nobody signs the genesis block. A signature here would never be verified, yet its
+		// participants are read later as if they had signed (e.g. by the leader rotation).
+		if qc.Signature() != nil {
+			return fmt.Errorf("genesis quorum certificate carries a signature")
+		}
 		return nil
 	}
 
